@@ -961,6 +961,8 @@ pub fn run_worker(ctx: &WorkerCtx) -> WorkerOut {
                 f.max_subs_on_topic_at_publish >= 2 && (f.redeliveries > 0 || f.overlapping_publishes || f.create_delete_overlapping_publish)
             };
             run_sim_stage(ctx, SimStage { name: "random", strategy: c01_strategy(), cfg: sim_cfg(false), cases: ctx.share(scale(t, 24_000, 240_000)), nontrivial: &nt, classes: &std_classes, extra: None }, &mut out);
+            // publishes racing the deletion and re-creation of their topic (handles that outlive a name)
+            run_sim_stage(ctx, SimStage { name: "topic_reuse_races", strategy: c09_race_strategy(), cfg: sim_cfg(false), cases: ctx.share(scale(t, 8_000, 80_000)), nontrivial: &nt, classes: &std_classes, extra: None }, &mut out);
         }
         "C02" => {
             crate::enumerate::c02_enumeration(ctx, &mut out);
